@@ -22,7 +22,8 @@ FROZEN = {
     "C08": [T + x for x in ["scope_Close", "scope_reportLoop", "scope_reportLoopRun", "scope_reportRegistry", "scopeRegistry_purge", "scopeRegistry_Report",
                             "scopeRegistry_CachedReport", "_newRootScope"]],
     "C09": [T + x for x in ["scope_Counter", "scope_counter", "scope_Gauge", "scope_gauge", "scope_Timer", "scope_timer", "scope_Histogram", "scope_histogram",
-                            "scopeRegistry_Subscope"]],
+                            "scopeRegistry_Subscope", "scopeRegistry_lockedLookup", "scopeRegistry_removeWithRLock", "bucketCache_Get", "_bucketsEqual",
+                            "_newBucketStorage", "scope_clearMetrics", "_mergeRightTags", "scope_copyAndSanitizeMap"]],
     "C10": [T + x for x in ["timer_Record", "timer_Start", "timer_RecordStopwatch", "timer_snapshot", "_newTimer", "Stopwatch_Stop", "_NewStopwatch", "histogram_Start",
                             "histogram_RecordStopwatch", "scope_Timer", "scope_timer", "timerNoReporterSink_ReportTimer"]] + ["body_instrument__NewCall", "body_instrument_call_Exec"],
     "C11": [T + x for x in ["scope_Snapshot", "_newSnapshot", "counter_snapshot", "gauge_snapshot", "timer_snapshot", "histogram_snapshotValues", "histogram_snapshotDurations",
